@@ -86,6 +86,22 @@ impl Prop for P20 {
                 _ => opts.push(json!({"o": "L", "k": 1 + rng.below(3)})),
             }
         }
+        // now and then all three of -I, -L and -n 1 (the one given last decides; -n 1 is "no conflict" only next to -I alone)
+        if rng.chance(1, 8) {
+            let r = *rng.pick(&rs);
+            the_r = r.to_string();
+            let i_opt = json!({"o": "I", "r": str_to_json(r), "form": if r == "{}" { *rng.pick(&["I", "i", "replace="]) } else { "I" }});
+            let l_opt = json!({"o": "L", "k": 2});
+            let n_opt = json!({"o": "n", "k": *rng.pick(&[1usize, 1, 2])});
+            opts = match rng.below(6) {
+                0 => vec![i_opt, l_opt, n_opt],
+                1 => vec![i_opt, n_opt, l_opt],
+                2 => vec![l_opt, i_opt, n_opt],
+                3 => vec![l_opt, n_opt, i_opt],
+                4 => vec![n_opt, i_opt, l_opt],
+                _ => vec![n_opt, l_opt, i_opt],
+            };
+        }
         // also a proper prefix of R right in front of R ("{{}", "aab" for R = "ab")
         let partial: String = the_r.chars().take(the_r.chars().count().saturating_sub(1).max(1)).collect();
         let pieces: Vec<String> = vec![the_r.clone(), "x".into(), "-".into(), "é".into(), "/".into(), "=".into(), the_r.clone(), "ab".into(), " ".into(), partial];
